@@ -662,6 +662,30 @@ theorem create_inTxnOver {db : Db} {r : Run} (h : InTxnOver db r.conn) : InTxnOv
         · exact h3
         · exact execAll_inTxnOver _ _ h3
 
+/-! ## the temporary name is already taken (left over by an earlier failed run) -/
+
+/-- `CREATE TABLE _alembic_tmp_<t>` on a database that already has that table: the statement fails (or is the
+injected fault) and the connection is exactly what it was -/
+theorem step_createTmp_taken {r : Run} {s : Schema} (h : ∃ t, r.conn.working.tmp = some t) :
+    (step ct fault r (.createTmp s)).2 ≠ none ∧ (step ct fault r (.createTmp s)).1.conn = r.conn := by
+  obtain ⟨t, ht⟩ := h
+  unfold step
+  split
+  · exact ⟨by simp, rfl⟩
+  · simp [Conn.exec, Stmt.isDml, applyStmt, ht]
+
+theorem create_tmp_taken {r : Run} (h : ∃ t, r.conn.working.tmp = some t) :
+    (create ct fault p r).2 ≠ none ∧ (create ct fault p r).1.conn = r.conn := by
+  obtain ⟨hne, hconn⟩ := step_createTmp_taken (ct := ct) (fault := fault) (s := p.newSchema) h
+  unfold create
+  simp only [execAll]
+  cases hst : step ct fault r (.createTmp p.newSchema) with
+  | mk ra ea =>
+    rw [hst] at hne hconn
+    cases ea with
+    | none => exact absurd rfl hne
+    | some e => exact ⟨by simp, hconn⟩
+
 /-! ## a fault at statement `k ≤ index(DROP original)` -/
 
 theorem create_intact_of_fault {r : Run} {k : Nat} (hi : Intact t0 r.conn) (hn : r.n = 0) (hk : fault = some k)
